@@ -270,7 +270,11 @@ class SecNode:
             mod.joinPollThread(max(0, deadline - now))
             now = time.time()
         for name in self._getSortedModules():
-            self.modules[name].shutdownModule()
+            try:
+                self.modules[name].shutdownModule()
+            except Exception as e:
+                # the other modules have to be shut down nevertheless
+                self.log.error('error in shutdownModule of %s: %r', name, e)
 
     def _getSortedModules(self):
         """Sort modules topologically by inverse dependency.
